@@ -1,4 +1,5 @@
 import ZenonVerif.Model.Contracts
+import ZenonVerif.Model.ContractsJoint
 import Driver.Core
 import Driver.Ledger
 /-
@@ -80,7 +81,13 @@ def parseOutcome (n : Names) : List String → Option (Names × Nat × List Payo
         let (n, dst) := n.addr dst
         let (n, tok) := n.tok tok
         let (n, r) ← go n k rest
-        pure (n, ⟨dst, tok, ← a.toNat?, if kind == "burn" then .burn else .none⟩ :: r)
+        let (n, call) ← (match kind.splitOn ":" with
+          | ["mint", t, m, to] => do
+            let (n, t) := n.tok t
+            let (n, to) := n.addr to
+            pure (n, PayCall.mint t (← m.toNat?) to)
+          | _ => pure (n, if kind == "burn" then PayCall.burn else PayCall.none) : Option (Names × PayCall))
+        pure (n, ⟨dst, tok, ← a.toNat?, call⟩ :: r)
       | _, _ => none
     let (n, ps) ← go n (← k.toNat?) rest
     pure (n, ← status.toNat?, ps)
@@ -230,6 +237,29 @@ def kCall (s : KSt) (n : Names) (h : Head) (args : List String) : Option (KSt ×
   | "sentinel", "Revoke", [] => some (runSentinel s n (revokeSentinel s.P) h.ctx)
   | _, _, _ => none
 
+/-- the observed outcome of a K-opaque receive judged by the models of Model/ContractsJoint.lean (`donate`,
+    `rewardUpdate`, `stakeUpdate`, `liquidityUpdate`, `collectReward`: C09Effect.bookkeeping_effect) and, for every
+    method, by the refused branch of `vmStep`: "" = agrees -/
+def opaqueJudge (h : Head) (status : Nat) (ps : List Payout) : String :=
+  let shape := fun (l : List Payout) => l.map fun p => (p.dst, p.tok, p.amt)
+  let isMintTo := fun (p : Payout) (to : Option Addr) =>
+    p.amt == 0 && (match p.call with | .mint _ a r => a > 0 && (to.isNone || to == some r) | _ => false)
+  if status == 2 then
+    if shape ps == shape (refundOf h.ctx) then "" else "refused-call-must-emit-exactly-the-refund"
+  else if status != 1 then "status-is-neither-applied-nor-refused"
+  else if !(["plasma", "stake", "htlc", "pillar", "sentinel", "liquidity"].contains h.contract) then ""
+  else match h.method with
+    | "Donate" => if ps.isEmpty then "" else "Donate-emits-nothing"
+    | "CollectReward" =>
+      if h.ctx.amount == 0 && !ps.isEmpty && ps.all (fun p => isMintTo p (some h.ctx.sender)) then ""
+      else "CollectReward-emits-only-zero-amount-mints-to-the-caller"
+    | "Update" =>
+      if h.ctx.amount != 0 then "Update-carries-no-amount"
+      else if h.contract == "liquidity" then
+        (if ps.all (fun p => isMintTo p none && p.tok == zeroTok) then "" else "liquidity-Update-emits-only-zero-amount-mints")
+      else if ps.isEmpty then "" else "reward-Update-emits-nothing"
+    | _ => ""
+
 /-- an unmodelled method (Update, CollectReward, ...): the observed outcome is an input; storage entries are left
     unchanged (the dumps that follow detect it if they were not), the balance moves by +amount −Σ descendants -/
 def kOpaque (s : KSt) (n : Names) (h : Head) (ps : List Payout) : Option KSt :=
@@ -273,9 +303,10 @@ def contractStep (s : KSt) : List String → Option (KSt × String)
     kCall s n h args
   | "K-opaque" :: rest => do
     let (n, h, out) ← parseHead s.names rest
-    let (n, _, ps) ← parseOutcome n out
+    let (n, status, ps) ← parseOutcome n out
+    let verdict := opaqueJudge h status ps
     let s ← kOpaque s n h ps
-    pure (s, "ok")
+    pure (s, if verdict.isEmpty then "ok" else "model:" ++ verdict)
   | ["K-mom", _, _] => some (s, "ok")
   | ["K-fusion", owner, id] =>
     let (n, owner) := s.names.addr owner
